@@ -107,12 +107,11 @@ def path_fn_factory(P):
         except Exception as e:
             return {"cls": "other-exception(C06's subject):" + type(e).__name__}
         # accepted: discharge the two obligations
-        key = id(tpl)
-        if key not in cache:
+        if getattr(tpl, "_c18", None) is None:  # cached on the template object itself (ids are reused after GC)
             defs, S = balanced_expr(tpl)
             hash_idx = [j for j, (t, v) in enumerate(tpl.alpha.syms) if t == "PPHASH"]
-            cache[key] = (defs, S, hash_idx)
-        defs, S, hash_idx = cache[key]
+            tpl._c18 = (defs, S, hash_idx)
+        defs, S, hash_idx = tpl._c18
         rec = {"cls": "accept", "witness": {"accept": True}}
         # Balanced: definitions of the stack are constraints (functional), claim is S == 0 with all pops legal
         eng.solver.push()
